@@ -14,6 +14,7 @@ import (
 	"strings"
 	"sync/atomic"
 	"testing"
+	"testing/synctest"
 	"time"
 	"unicode"
 
@@ -138,7 +139,50 @@ var (
 	beat     atomic.Int64
 	beatName atomic.Value
 	beatDesc atomic.Value
+	// quiesceSince != 0: a goroutine of a bubble has been inside one single synctest.Wait() call since then
+	quiesceSince atomic.Int64
 )
+
+// InBubble brackets one case that runs inside a synctest bubble (no real work, virtual sleeping: milliseconds of real
+// time). A case that is still going on more than a minute later cannot finish; the watchdog then looks for goroutines
+// that are running or runnable with a glb function on top of their stack, twice, ten seconds apart: spinning inside glb.
+func InBubble(on bool) {
+	if on {
+		bubbleSince.Store(time.Now().UnixNano())
+	} else {
+		bubbleSince.Store(0)
+	}
+}
+
+var bubbleSince atomic.Int64
+
+// Quiesce is synctest.Wait() under observation: inside a bubble every goroutine either finishes its step or blocks
+// durably within micro- or milliseconds (tasks do no real work, sleeping is virtual), so one Wait() call that is still
+// going on a minute later means that some goroutine of the bubble can neither finish nor block. The watchdog then looks
+// at the goroutine dump: a goroutine that is running (or runnable) with a glb function on top of its stack, twice, ten
+// seconds apart, is spinning inside glb code.
+func Quiesce() {
+	quiesceSince.Store(time.Now().UnixNano())
+	synctest.Wait()
+	quiesceSince.Store(0)
+}
+
+// (frames of sync/atomic, sync, runtime and internal/... above the glb function do not count: an atomic operation or a
+// lock attempt made by the glb function is part of its spinning)
+var spinningInGlb = regexp.MustCompile(`^goroutine (\d+) \[(?:running|runnable)[^\]]*\]:\n(?:(?:sync/atomic|sync|runtime|runtime/[a-z]+|internal/[a-z/]+)\.[^\n]*\n[^\n]*\n)*(github\.com/whoisnian/glb/[^\n]*)`)
+
+// spinning returns goroutine id -> top function for goroutines that are running or runnable with a glb function on top.
+func spinning() (map[string]string, string) {
+	buf := make([]byte, 8<<20)
+	buf = buf[:runtime.Stack(buf, true)]
+	out := map[string]string{}
+	for _, g := range strings.Split(string(buf), "\n\n") {
+		if m := spinningInGlb.FindStringSubmatch(g); m != nil {
+			out[m[1]] = m[2]
+		}
+	}
+	return out, string(buf)
+}
 
 // Describe records a rendering of the case that is running, for the watchdog's report.
 func Describe(s string) { beatDesc.Store(s) }
@@ -176,6 +220,24 @@ func startWatchdog() {
 	go func() {
 		for {
 			time.Sleep(2 * time.Second)
+			if q := bubbleSince.Load(); q != 0 && time.Since(time.Unix(0, q)) > hangAfter+15*time.Second {
+				first, _ := spinning()
+				time.Sleep(10 * time.Second)
+				second, buf := spinning()
+				var culprits []string
+				for id, fn := range second {
+					if first[id] == fn && bubbleSince.Load() == q {
+						culprits = append(culprits, "goroutine "+id+" in "+fn)
+					}
+				}
+				if len(culprits) > 0 {
+					name, _ := beatName.Load().(string)
+					desc, _ := beatDesc.Load().(string)
+					fmt.Printf("HANG-IN-GLB: test %s: one case inside a synctest bubble has not finished for %s: goroutines of the bubble neither finish nor block; %d goroutine(s) are spinning inside glb code (%s)\ncase: %s\n\nall goroutines:\n%s\n", name, time.Since(time.Unix(0, q)).Round(time.Second), len(culprits), strings.Join(culprits, "; "), desc, buf)
+					ev.Flush()
+					os.Exit(4)
+				}
+			}
 			b := beat.Load()
 			if b == 0 || time.Since(time.Unix(0, b)) < hangAfter {
 				continue
